@@ -104,6 +104,7 @@ class HarnessError(Exception):
 
 
 _num_re = re.compile(r'\d+')
+_addr_re = re.compile(r' at 0x[0-9a-fA-F]+')
 
 
 class Sim(object):
@@ -131,7 +132,7 @@ class Sim(object):
 
     # --- bookkeeping -----------------------------------------------------
     def log(self, *entry):
-        self.trace.append(entry)
+        self.trace.append(tuple(_addr_re.sub('', x) if isinstance(x, str) else x for x in entry))
 
     def probe(self, name, n=1):
         self.probes[name] = self.probes.get(name, 0) + n
@@ -141,6 +142,7 @@ class Sim(object):
 
     def fail(self, sig, msg):
         """record a property violation (first one wins) and unwind"""
+        msg = _addr_re.sub('', msg)
         if self.violation is None:
             self.violation = (sig, msg)
             self.log('VIOLATION', sig, msg)
